@@ -24,6 +24,14 @@ func strOf(n int) string { return strings.Repeat("abcdefghijklmnopqrstuvwxyz0123
 
 // scalarDomain: boundary values of one kind, simplest first. index 0 is always the zero value.
 func scalarDomain(fd protoreflect.FieldDescriptor, thorough bool) []nv {
+	out := scalarDomain0(fd, thorough)
+	if fd.HasDefault() && !fd.IsList() { // proto2 [default = x]: the field explicitly SET to its default value
+		out = append(out, nv{"dflt", cloneScalar(fd.Default())})
+	}
+	return out
+}
+
+func scalarDomain0(fd protoreflect.FieldDescriptor, thorough bool) []nv {
 	V := protoreflect.ValueOf
 	switch fd.Kind() {
 	case protoreflect.BoolKind:
